@@ -28,15 +28,18 @@ type Cancel struct {
 }
 
 type Case struct {
-	Backend   string   `json:"backend"`
-	Transport string   `json:"transport"`
-	N         int      `json:"n"`
-	State     string   `json:"state"`   // cold | fresh | stale304 | stale200
-	Outcome   string   `json:"outcome"` // cacheable | no-store | 404 | 500
-	BodyLen   int      `json:"body_len"`
-	Cancels   []Cancel `json:"cancels"`
-	Slow      int      `json:"slow"` // index of a slow reader, -1 none
-	Hook      string   `json:"hook"` // "" | delete | overwrite : action at the hand-over point of the first request to get there
+	Backend   string `json:"backend"`
+	Transport string `json:"transport"`
+	N         int    `json:"n"`
+	State     string `json:"state"` // cold | fresh | stale304 | stale200
+	// OriginSlowMs > 0: the origin pauses in the middle of its body, so the transfer outlasts the 80 ms
+	// lifetime and the entry the flight stores is already stale when the followers read it
+	OriginSlowMs int      `json:"origin_slow_ms,omitempty"`
+	Outcome      string   `json:"outcome"` // cacheable | no-store | 404 | 500
+	BodyLen      int      `json:"body_len"`
+	Cancels      []Cancel `json:"cancels"`
+	Slow         int      `json:"slow"` // index of a slow reader, -1 none
+	Hook         string   `json:"hook"` // "" | delete | overwrite : action at the hand-over point of the first request to get there
 }
 
 type result struct {
@@ -52,7 +55,7 @@ var sub = ev.Register("coalescing",
 	func(c Case, o *ev.Obs) *ev.Failure {
 		site := origin.NewSite()
 		mkVersion := func(v int) origin.Version {
-			ver := origin.Version{Ver: v, Len: c.BodyLen + v, ETag: fmt.Sprintf(`"c5-v%d"`, v)}
+			ver := origin.Version{Ver: v, Len: c.BodyLen + v, ETag: fmt.Sprintf(`"c5-v%d"`, v), SlowMs: c.OriginSlowMs}
 			switch c.Outcome {
 			case "no-store":
 				ver.Headers = []origin.HV{{K: "Cache-Control", V: "no-store"}}
@@ -250,6 +253,7 @@ var sub = ev.Register("coalescing",
 		o.Classf("cancels:%d", nCancel)
 		o.Classf("leader-cancelled:%v", leaderCancelled)
 		o.Class("hook:" + c.Hook)
+		o.Classf("transfer-outlasts-lifetime:%v", c.OriginSlowMs >= 120)
 		o.Classf("coalesced:%v", coalesced > 0)
 		o.NonTrivial = coalesced > 0
 		pattern := ""
@@ -352,6 +356,9 @@ func drawCase(t *rapid.T) Case {
 	}
 	if c.Outcome != "cacheable" {
 		c.State = "cold"
+	}
+	if c.State != "fresh" && rapid.IntRange(0, 3).Draw(t, "slow-origin") == 0 {
+		c.OriginSlowMs = rapid.SampledFrom([]int{30, 120, 250}).Draw(t, "origin-slow-ms")
 	}
 	if rapid.IntRange(0, 3).Draw(t, "slow") == 0 {
 		c.Slow = rapid.IntRange(0, c.N-1).Draw(t, "slow-idx")
